@@ -253,8 +253,7 @@ def check(ctx):
         gen['hold_with_padded_entries'] += 1 if o.get('padded_entries') and o['general_holds'] else 0
         if o['general_holds'] and o.get('general_model_agrees') is False:
             ctx.violation('proof', 'the restore model contradicts restore_exact_checked on a real instance with a changing file', {'case': o}, found_input=False)
-        if not o['general_holds'] and not oracle(o) and not (o.get('record') and o['record']['unique'] and o['record']['size'] == 0):
-            # (a stored file read as empty after a non-zero size was announced is not represented by `render`)
+        if not o['general_holds'] and not oracle(o):
             ctx.violation('correspondence', 'a backup made while a file changed (published, verified, restored) is not the rendering of a well-formed, '
                           'resolvable logical group with padded entries: the hypotheses of restore_exact/changed_file_restores do not hold', {'case': o}, found_input=False)
     dist = {}
